@@ -43,7 +43,7 @@ package token
 // Chunks cuts the string, it neither drops nor adds nor reorders text: the chunks concatenate to the input, and each is
 // a literal or a %...% token ("%%" included). (A7: the input is valid UTF-8, as YAML guarantees.)
 //@ func (*Chunker).Chunks pure
-//@   property C03 C12 C02 C11 C15
+//@   property C03 C12 C02 C11 C15 C04 C05 C06 C07 C14 C16
 //@   uses join_frame pct_skip
 //@   ensures [unbalanced_delimiter_is_an_error] (result.1 != nil) <==> pct(s, len(s)) % 2 == 1
 //@   ensures [empty_is_one_empty_chunk] s == "" ==> result.1 == nil && len(result.0) == 1 && result.0[0] == ""
@@ -70,58 +70,61 @@ package token
 // toExpr strips the surrounding "%" delimiters. The code works on runes; "%" is a single byte and a single rune, so on
 // valid UTF-8 (A7) cutting one rune off each end is cutting one byte off each end.
 //@ func toExpr pure
-//@   property C03 C12 C02 C15
+//@   property C03 C12 C02 C15 C04 C05 C06 C07 C11 C14 C16
 //@   ensures [delimited_iff] result.1 <==> (len(expr) >= 2 && hasPrefix(expr, "%") && hasSuffix(expr, "%"))
 //@   ensures [inner] result.1 ==> expr == "%" + result.0 + "%"
 //@   ensures [not_ok_empty] !result.1 ==> result.0 == ""
 
 //@ func (FactoryPercentMark).Supports
-//@   property C03 C02
+//@   property C03 C02 C04 C05 C06 C07 C11 C12 C14 C15 C16
 //@   ensures [iff] result <==> expr == "%%"
 //@ func (FactoryPercentMark).Create
-//@   property C03 C02
+//@   property C03 C02 C04 C05 C06 C07 C11 C12 C14 C15 C16
 //@   ensures [literal_percent] result.1 == nil && result.0.Kind == KindString && len(result.0.DependsOn) == 0
 
 // %name%: a reference; the dependency list names exactly the parameter the emitted code asks for
 //@ func (FactoryReference).Supports
-//@   property C03 C06 C02
+//@   property C03 C06 C02 C04 C05 C07 C11 C12 C14 C15 C16
 //@   ensures [iff] result <==> (len(s) >= 2 && hasPrefix(s, "%") && hasSuffix(s, "%") && matches(substr(s, 1, len(s) - 2), regexTokenRef))
 //@ func (FactoryReference).Create
-//@   property C03 C06 C07 C02 C05
+//@   property C03 C06 C07 C02 C05 C04 C11 C12 C14 C15 C16
 //@   ensures [depends_on_exactly_the_named_param] result.1 == nil && result.0.Kind == KindReference && result.0.Raw == s
 //@        && len(result.0.DependsOn) == 1 && (toExpr(s).1 ==> s == "%" + result.0.DependsOn[0] + "%")
 
 //@ func (FactoryString).Supports
-//@   property C03 C02
+//@   property C03 C02 C04 C05 C06 C07 C11 C12 C14 C15 C16
 //@   ensures [always] result
 //@ func (FactoryString).Create
-//@   property C03 C02
+//@   property C03 C02 C04 C05 C06 C07 C11 C12 C14 C15 C16
 //@   ensures [plain_string] result.1 == nil && result.0.Kind == KindString && result.0.Raw == expr && len(result.0.DependsOn) == 0
+// the text is emitted as the literal the helpers' exporter prints for it (an interpreted, one-line string literal: the
+// formatter's blank-line squeeze relies on generated literals never spanning lines)
+//@   ensures [code_returns_the_exported_literal] result.0.Code == "func() (r interface{}, err error) { return " + exported(boxed(expr)) + ", nil }"
 
 // %fn(args)% with an unregistered fn: the catch-all for call syntax (the registered functions are tried first)
 //@ func (FactoryUnexpectedFunction).Supports
-//@   property C03 C11 C15
+//@   property C03 C11 C15 C02 C04 C05 C06 C07 C12 C14 C16
 //@   ensures [iff] result <==> (len(expr) >= 2 && hasPrefix(expr, "%") && hasSuffix(expr, "%") && matches(substr(expr, 1, len(expr) - 2), regexSimpleFn))
 // a registered function claims exactly the calls whose name - the text between the opening % and the first parenthesis -
 // is its own
 //@ func (*FactoryFunction).Supports
-//@   property C03 C15 C02
+//@   property C03 C15 C02 C04 C05 C06 C07 C11 C12 C14 C16
 //@   ensures [call_syntax_only] result ==> len(expr) >= 2 && hasPrefix(expr, "%") && hasSuffix(expr, "%") && matches(substr(expr, 1, len(expr) - 2), regexSimpleFn)
 //@   ensures [own_name_only] result ==> hasPrefix(expr, "%" + f.fn + "(")
 //@   ensures [own_calls_supported] len(expr) >= 2 && hasPrefix(expr, "%") && hasSuffix(expr, "%") && matches(substr(expr, 1, len(expr) - 2), regexSimpleFn)
 //@        && substr(expr, 1, indexOf(expr, "(") - 1) == f.fn ==> result
 //@ func (FactoryUnexpectedFunction).Create
-//@   property C03 C11 C15
+//@   property C03 C11 C15 C02 C04 C05 C06 C07 C12 C14 C16
 //@   ensures [always_rejected] result.1 != nil
 //@ func (FactoryUnexpectedToken).Supports
-//@   property C03 C11 C15
+//@   property C03 C11 C15 C02 C04 C05 C06 C07 C12 C14 C16
 //@   ensures [iff] result <==> (len(expr) >= 2 && hasPrefix(expr, "%") && hasSuffix(expr, "%"))
 //@ func (FactoryUnexpectedToken).Create
-//@   property C03 C11 C15
+//@   property C03 C11 C15 C02 C04 C05 C06 C07 C12 C14 C16
 //@   ensures [always_rejected] result.1 != nil
 
 //@ func (*StrategyFactory).Create
-//@   property C03 C12 C02 C11 C15
+//@   property C03 C12 C02 C11 C15 C04 C05 C06 C07 C14 C16
 //@   requires [wired] forall j int :: 0 <= j && j < len(f.strategies) ==> f.strategies[j] != nil
 //@   ensures [first_supporting_factory_decides] forall k int :: 0 <= k && k < len(f.strategies) && f.strategies[k].Supports(i)
 //@        && (forall q int :: 0 <= q && q < k ==> !f.strategies[q].Supports(i)) ==>
@@ -132,14 +135,14 @@ package token
 
 // registered functions are tried before everything registered earlier
 //@ func (*StrategyFactory).Prepend
-//@   property C03 C15
+//@   property C03 C15 C02 C04 C05 C06 C07 C11 C12 C14 C16
 //@   modifies f.strategies
 //@   ensures [new_first] len(f.strategies) == len(old(f.strategies)) + 1 && f.strategies[0] == s
 //@   ensures [others_in_order] forall j int :: 0 <= j && j < len(old(f.strategies)) ==> f.strategies[j + 1] == old(f.strategies)[j]
 
 // one token per chunk, in order; accepted iff every chunk is
 //@ func (*Tokenizer).Tokenize
-//@   property C03 C12 C02 C11 C15
+//@   property C03 C12 C02 C11 C15 C04 C05 C06 C07 C14 C16
 //@   reports_all
 //@   requires [wired] t.chunker != nil && t.factory != nil
 //@   ensures [chunker_error_kept] t.chunker.Chunks(s).1 != nil ==> result.1 != nil
@@ -153,7 +156,7 @@ package token
 
 // single token: the value's type is preserved (provider of that token); several: concatenation of all, in order
 //@ func (Tokens).GoCode
-//@   property C03 C02 C15
+//@   property C03 C02 C15 C04 C05 C06 C07 C11 C12 C14 C16
 //@   ensures [empty_is_an_error] (result.1 != nil) <==> len(tkns) == 0
 //@   ensures [single_token_keeps_type] len(tkns) == 1 ==> result.0 == "dependencyProvider(" + tkns[0].Code + ")"
 //@   ensures [several_tokens_are_concatenated_in_order] len(tkns) >= 2 ==> (exists parts []string :: len(parts) == len(tkns)
@@ -165,31 +168,31 @@ package token
 // C14: a function registered with an import resolves that import through the alias table when a token is created,
 // i.e. after all of meta.imports has been registered (StepCompileMeta.Process), never at registration time.
 //@ func NewFactoryFunction
-//@   property C14 C03 C15
+//@   property C14 C03 C15 C02 C04 C05 C06 C07 C11 C12 C16
 //@   ensures [fields_as_given] result.aliaser == a && result.fn == fn && result.goImport == goImport && result.goFn == goFn
 //@   ensures [no_alias_at_registration] tlen() == old(tlen())
 
 //@ func (*FactoryFunction).Create
-//@   property C03 C12 C14 C02 C15
+//@   property C03 C12 C14 C02 C15 C04 C05 C06 C07 C11 C16
 //@   requires [wired] f.aliaser != nil
 //@   ensures [function_token] result.1 == nil && result.0.Kind == KindFunc && result.0.Raw == expr && len(result.0.DependsOn) == 0
 //@   ensures [import_resolved_at_creation] f.goImport != "" ==> (exists k int :: old(tlen()) <= k && k < tlen() && evIs(k, "internal/pkg/token:aliaser.Alias") && evS1(k) == f.goImport)
 
 //@ func (*FuncRegisterer).RegisterFunc
-//@   property C03 C12 C14 C15
+//@   property C03 C12 C14 C15 C02 C04 C05 C06 C07 C11 C16
 //@   requires [wired] f.prepender != nil
 //@   ensures [no_alias_at_registration] forall k int :: old(tlen()) <= k && k < tlen() ==> !evIs(k, "internal/pkg/token:aliaser.Alias")
 
 // ---- constructors
 //@ func NewChunker
-//@   property C03
+//@   property C03 C02 C04 C05 C06 C07 C11 C12 C14 C15 C16
 //@   ensures [nonnil] result != nil
 //@ func NewStrategyFactory
-//@   property C03
+//@   property C03 C02 C04 C05 C06 C07 C11 C12 C14 C15 C16
 //@   ensures [keeps_the_strategies_in_order] result != nil && ((forall j int :: 0 <= j && j < len(strategies) ==> strategies[j] != nil) ==> len(result.strategies) == len(strategies) && (forall j int :: 0 <= j && j < len(strategies) ==> result.strategies[j] == strategies[j]))
 //@ func NewFuncRegisterer
-//@   property C03 C14
+//@   property C03 C14 C02 C04 C05 C06 C07 C11 C12 C15 C16
 //@   ensures [fields_as_given] result != nil && result.prepender == p && result.aliaser == a
 //@ func NewTokenizer
-//@   property C03
+//@   property C03 C02 C04 C05 C06 C07 C11 C12 C14 C15 C16
 //@   ensures [fields_as_given] result != nil && result.chunker == ch && result.factory == f
